@@ -233,6 +233,8 @@ struct Shared {
   digests: Vec<MethodDigest>,
   signatures: RefCell<Vec<(String, Vec<u8>, Vec<u8>)>>,
   harness_keygen: RefCell<Xo>,
+  /// private JWK and public x of the last valid insert
+  last_inserted: RefCell<Option<(serde_json::Value, String)>>,
 }
 
 impl Shared {
@@ -350,7 +352,20 @@ async fn run_op(sh: &Shared, client: usize, op: Op) {
     Op::Insert(k) => {
       kind = "insert";
       arg = format!("{k:?}");
-      let (mut priv_json, x) = harness_private_jwk(&mut sh.harness_keygen.borrow_mut());
+      // a valid insert is a new key or, one time in four, the key material of the previous valid insert again (the
+      // same key then lives under two key ids, each with a life of its own)
+      let reuse = matches!(k, InsertKind::Valid) && ctx::choose(4) == 0;
+      let previous = sh.last_inserted.borrow().clone();
+      let (mut priv_json, x) = match (reuse, previous) {
+        (true, Some(p)) => {
+          ctx::stat("probe.same_key_material_inserted_again");
+          p
+        }
+        _ => harness_private_jwk(&mut sh.harness_keygen.borrow_mut()),
+      };
+      if matches!(k, InsertKind::Valid) {
+        *sh.last_inserted.borrow_mut() = Some((priv_json.clone(), x.clone()));
+      }
       let public = jwk_from_json(serde_json::json!({"kty":"OKP","crv":"Ed25519","x": x, "alg":"EdDSA"}));
       let valid = matches!(k, InsertKind::Valid);
       match k {
@@ -857,6 +872,7 @@ impl Engine for KsEngine {
       digests: make_digests(n_digests),
       signatures: RefCell::new(Vec::new()),
       harness_keygen: RefCell::new(Xo::new(keygen_seed ^ 0xABCD)),
+      last_inserted: RefCell::new(None),
     };
 
     // ---- scripts ----
@@ -1059,8 +1075,11 @@ impl Engine for KsEngine {
           format!("a signature was returned for key id {id} which no generate/insert issued"),
         ),
       }
+      let own_x = publics.get(id).and_then(|pk| serde_json::to_value(pk).ok()).and_then(|v| v.get("x").cloned());
       for (other, pk) in publics.iter() {
-        if other != id && verify_ed25519(pk, data, sig) {
+        // (the same key material stored under a second key id is not another key)
+        let same_material = serde_json::to_value(pk).ok().and_then(|v| v.get("x").cloned()) == own_x;
+        if other != id && !same_material && verify_ed25519(pk, data, sig) {
           ctx::violation(
             prop,
             "C15.signature_verifies_under_no_other_key",
